@@ -8,8 +8,16 @@ for l in open(os.path.join(R, "seeded", "RESULTS.txt")):
     if m:
         s, c, v, rest = m.groups()
         key = re.search(r"replays/C\d+_([A-Za-z0-9_.-]+?)_\d+\.json", rest)
-        nf = "no-failing-input-found" in rest
-        res[(s, c)] = (v, key.group(1) if key else "", nf)
+        allk = re.search(r"ALLKEYS=(\S*)", rest)
+        keys = [k for k in (allk.group(1).split(",") if allk else []) if k]
+        if keys:
+            withinput = [k for k in keys if not k.endswith("(no-input)")]
+            nf = not withinput
+            k0 = (withinput or keys)[0].replace("(no-input)", "")
+            res[(s, c)] = (v, k0 + (" +%d more" % (len(keys) - 1) if len(keys) > 1 else ""), nf)
+        else:
+            nf = "no-failing-input-found" in rest
+            res[(s, c)] = (v, key.group(1) if key else "", nf)
 rows = ["| Seed | What it changes (needs to manifest) | Check: verdict (finding key) |", "|---|---|---|"]
 for d in sorted(glob.glob(os.path.join(R, "seeded", "C*-*"))):
     s = os.path.basename(d)
